@@ -6,6 +6,8 @@ import Rare.Model.C09Err
 import Rare.Spec.C09WFB
 import Rare.Spec.C09Pos
 import Rare.Spec.C09FragW
+import Rare.Spec.C09All
+import Rare.Model.C09Sig
 import Rare.Drv.C08Time
 /-!
 Line-protocol ops of C09.
@@ -45,6 +47,11 @@ Line-protocol ops of C09.
                                                   standard function table; templates with builder errors are `unmodelled`
   kbapi <name> <template raw bytes>                `NewKeyBuilder()` (optimiser on), `Funcs(map)`, `HasFunc(name)`,
                                                   `StageCount()`, `DetailedError.Unwrap()` of every recorded error
+  aerr  <opt> <template raw bytes>                 the SPEC's answer to "which errors AT ALL, builder errors included": `allErrs`
+                                                  under the arity signature of the probe registry (`Spec/C09All.lean`; no compile on
+                                                  the model side); the real side lists every recorded error (`all_errors_exact_arity`)
+  aerrs <opt> <template raw bytes>                 the same against the REAL standard function table, for templates whose function
+                                                  names are among the 33 arity-only names (else `unmodelled non-arity-name`)
   wtree <opt> <tokens> <elems> <keys>             the WORLD-RELATIVE fragment (`Spec/C09FragW.lean`): trees over the value-level
                                                   names, `format`, the binders `@map @filter @reduce @for` and the UTC time
                                                   helpers; the model compiles the SPEC's print with the registry of the world and
@@ -161,6 +168,16 @@ def synErrsStr (es : List SynErr) : String :=
   if es.isEmpty then "." else
   ",".intercalate (es.map fun e => s!"{synKindStr e.kind}@{e.index}:{Hex.enc (encodeRunes e.context)}")
 
+/-! ### rendering for the ops `aerr` / `aerrs` (signatures: `Model/C09Sig.lean`) -/
+
+def repErrsStr (es : List RepErr) : String :=
+  if es.isEmpty then "." else
+  ",".intercalate (es.map fun e =>
+    let k := match e.kind with
+      | .syn k => synKindStr k
+      | .builder m => "func." ++ m
+    s!"{k}@{e.index}:{Hex.enc (encodeRunes e.context)}")
+
 /-! ### the world of the driver (op `wtree`) -/
 
 def drvTw : Funcs.TimeW.TimeWorld := Rare.Drv.C08Time.world {}
@@ -175,6 +192,16 @@ def registryW : Registry :=
 
 def handle (args : List String) : String :=
   match args with
+  | ["aerr", _, t] =>
+    match Hex.dec t with
+    | some tb => "ok " ++ repErrsStr (allErrs splitArgs testSig (decodeRunes tb))
+    | none => "bad-args"
+  | ["aerrs", _, t] =>
+    match Hex.dec t with
+    | some tb =>
+      let es := allErrs splitArgs drvAritySig (decodeRunes tb)
+      if es.any (fun e => e.kind == .builder "?") then "unmodelled non-arity-name" else "ok " ++ repErrsStr es
+    | none => "bad-args"
   | ["serr", _, t] =>
     match Hex.dec t with
     | some tb => "ok " ++ synErrsStr (synErrs splitArgs (fun n => (testRegistry n).isSome) (decodeRunes tb))
